@@ -60,13 +60,13 @@ CLAIMS = {
              "buses uses one row set; the mismatch carries + weights*slack over the ref rows and both Jacobian siblings get "
              "the weights; weighted buses/gens join ref/ref_gens; xward results add the variable power to the rows of the bus "
              "only, with scalar total weight and the demand as aggregated. The equal weighted deviation of the converged "
-             "solution is not decided. Round 3: in-service neighbours only and sign table {sgen} in the xward share; all further reference buses become PV; no bypass with distributed slack.",
+             "solution is not decided. Round 3: in-service neighbours only and sign table {sgen} in the xward share; all further reference buses become PV; no bypass with distributed slack. Round 5: normalisation depends on distributed_slack only; xward bus loop without early exit.",
              "ast dependence / provenance (order-preserving) / sibling-agreement analysis"),
     "C11": C("Only the bookkeeping of the three-phase power flow is claimed: element types mapped into the per-phase bus powers "
              "equal those reported in res_bus_3ph; symmetric elements contribute a third per phase with scaling, in-service "
              "mask and sign (-1 for *sgen) on the input and on the result side; phase letters / matrix rows / bus_pq columns "
              "agree between writers and readers; Tabc.T012 = I by constant folding and the transforms use their own matrix. "
-             "Agreement with the symmetric power flow is not decided. Round 3: bus lookup before grouping of the phase powers; ext-grid admittances returned as stored.",
+             "Agreement with the symmetric power flow is not decided. Round 3: bus lookup before grouping of the phase powers; ext-grid admittances returned as stored. Round 5: line parameters use the mode dependent baseR; zero-sequence line status written in every mode.",
              "ast table / sibling agreement + constant folding"),
     "C12": C("Writer/reader table agreement: every (element, variable) ConstControl marks recyclable is read by a "
              "builder that the raised flag re-runs; every variable accepted for batch reading is provided by "
@@ -81,11 +81,11 @@ CLAIMS = {
              "ordering / guard / sibling cross-check on ast"),
     "C14": C("in_service restored in finally for every N-1 case; N-0 evaluation after the N-1 loop; min/max masks "
              "exclude own outage and NaN; cause attribution is NaN-safe; the N-1 limit column is read from the table "
-             "whose loading is compared. Also: N-1 cases run with pf_options_nminus1, the base case with pf_options; out-of-service cases skipped.",
+             "whose loading is compared. Also: N-1 cases run with pf_options_nminus1, the base case with pf_options; out-of-service cases skipped. Round 5: recycle forced off, object dtype of cause names, all tables written, cause_index compared with the outaged table only.",
              "CFG pairing + dependence analysis"),
     "C15": C("Sibling agreement between the sequential and the parallel update function (same masks, own outage "
              "excluded in both, in-service mask applied in both); results consumed in task order (no unordered map); "
-             "workers write only to copies. Also: worker and sequential fallback run N-1 cases with pf_options_nminus1; task list skips out-of-service elements; pool size n_procs.",
+             "workers write only to copies. Also: worker and sequential fallback run N-1 cases with pf_options_nminus1; task list skips out-of-service elements; pool size n_procs. Round 5: same set-up clauses as C14, cause_index guard in both masks, pool chunk size >= 1.",
              "sibling cross-check + effect analysis on ast"),
     "C16": C("Every declared OPF constraint column is read on the OPF conversion path into the matching ppc limit "
              "column with the load-like inversion pair; paired fancy-index masks agree (MASKPAIR); if/else limit "
@@ -104,12 +104,12 @@ CLAIMS = {
              "library namespace (a missing name makes estimation fail for every input); the ten measurement blocks of z, "
              "covariance, index map, non-NaN masks, h(x) and Jacobian rows are the same kinds in the same order, each "
              "selected with its own mask and the matching real/imag part. Also: duplicates merged by the weighted average before summation; no dead local stores in the estimation package. Also: current measurements related to the bus nominal voltage.",
-             "ast attribute-chain resolution against installed stub files + sibling order/mask agreement",
+             "ast attribute-chain resolution against installed stub files + sibling order/mask agreement Round 5: branch lookup keyed by index labels; observability bound strict.",
              note="Trusted base: ast parser, the installed numpy/scipy .pyi/.py files as the namespace oracle. Decides API "
                   "existence and block agreement only, not the estimate."),
     "C20": C("Writer/reader agreement of the serialisers: every metadata key an encoder emits is consumed by its "
              "decoder, every emitted class signature has a decoder, encryption is paired, Excel/SQLite column "
-             "coding sets agree; a stored std-type parameter takes precedence in the documented order. Also: NaN/inf written as JSON extensions, pickle keeps dtype objects, include_* switches not overridden.",
+             "coding sets agree; a stored std-type parameter takes precedence in the documented order. Also: NaN/inf written as JSON extensions, pickle keeps dtype objects, include_* switches not overridden. Round 5: double_precision=15 in every pandas writer; exact suffix removal in the Excel/SQLite reader.",
              "literal-table extraction and agreement on ast"),
     "C22": C("Foreign keys declared in network_schema are covered by the toolbox tables; every type code of a "
              "referencing table is handled by reindex_elements; every row drop in the toolbox is preceded by group "
@@ -120,14 +120,14 @@ CLAIMS = {
              "toolbox (line<->impedance, ward/xward -> internal elements or ward, ext_grid<->gen, gen<->sgen, load/sgen/"
              "storage conversions) has the unit, decimal scale, base-power degree, parallel degree and sign of its column "
              "and flows from the corresponding parameter of the replaced element. Re-indexing, merging, sub-net selection, "
-             "dropping and fusing are not decided. Also: asymmetry test of impedance->line, f_hz handed to sub-networks, characteristic id offset when merging.",
+             "dropping and fusing are not decided. Also: asymmetry test of impedance->line, f_hz handed to sub-networks, characteristic id offset when merging. Round 5: merge_parallel_line writes back what it reads; other-end idiom; characteristic rows of trafo and trafo3w in select_subnet.",
              "monomial-shape abstract interpretation (rows of itertuples/iterrows as table rows, create_* inlined)"),
     "C24": C("Sibling agreement of single and batch creators: std-type keys consumed, columns written, existence and "
              "index checks called, duplicate-cost predicate structure incl. the power_type filter. Also: index checks dominate the return, optional columns decided over all types, explicit arguments override the type. Also: index check and row write of every creator name the same table. Round 4: default shunt voltage by label in the order given; defaults filled before the dtype cast.",
              "sibling cross-check of literal tables on ast"),
     "C25": C("Electrical keys of the built-in standard-type libraries are consumed by the creators; change_std_type "
              "iterates over the type's parameters and applies them unconditionally, replacing the std_type cell; list-valued "
-             "optional parameters are optional in both creators; no caller mutates the dict returned by load_std_type. Also: single and batch creators consume the same std-type keys; fuse curves pair x_k with t_k.",
+             "optional parameters are optional in both creators; no caller mutates the dict returned by load_std_type. Also: single and batch creators consume the same std-type keys; fuse curves pair x_k with t_k. Round 5: copy/create_std_types forward overwrite; guarded key follows the tap-changer loop variable.",
              "table agreement + alias/mutation analysis"),
     "C26": C("Per edge-producing block of create_nxgraph: in_service dependence, switch mask dependence on closed/et, "
              "out-of-service bus removal, nogobuses/notravbuses handling; connected_components removes each "
@@ -136,7 +136,7 @@ CLAIMS = {
              "dependence analysis on ast"),
     "C27": C("Cascade clauses: detach-before-drop in every drop function; reindexing rewrites group element_index; "
              "group row removed exactly when member list becomes empty; group cells are not mutated through aliases shared "
-             "between groups; index None checks precede use. Also: parallel group lists not re-bound before zip; reference-column uniqueness tested on the whole column.",
+             "between groups; index None checks precede use. Also: parallel group lists not re-bound before zip; reference-column uniqueness tested on the whole column. Round 5: emptiness test on every path of the group loop; detach/drop index agreement.",
              "ordering + dependence analysis on ast"),
     "C28": C("get_equivalent rebinds net to a deep copy before the first write and no reachable function writes "
              "to an object aliasing the caller's net. Also: list cells shared with the caller's net not mutated in place; no discarded drop() results in grid_equivalents.",
@@ -146,11 +146,11 @@ CLAIMS = {
              "the stages from the most to the least severe with strict comparisons, set tripped and the time of the same "
              "stage, and end in not-tripped / infinite time; the inverse-time expression agrees between IDMT and IDTOC and is "
              "guarded by i > I_s; the fuse works in ampere throughout; __str__/__repr__ of protection devices store nothing. "
-             "Monotonicity of run-time characteristic data is not decided.",
+             "Monotonicity of run-time characteristic data is not decided. Round 5: one pick-up formula per current across relay types; manual time settings copied under their names.",
              "ast branch-chain / sibling-agreement / effect analysis"),
     "C30": C("No module-level mutable escapes by reference into instance state that is mutated in place; each "
              "diagnostic function that writes its parameter's tables (directly or through a callee) restores them on every "
-             "normally returning path; results are returned in fresh containers. Also: no mutable class attribute shared between Diagnostic instances, no memoised function in the package.",
+             "normally returning path; results are returned in fresh containers. Also: no mutable class attribute shared between Diagnostic instances, no memoised function in the package. Round 5: no read of call state before this call wrote it; logger filters / level restored, no edit while iterating.",
              "shared-mutable escape analysis + CFG restore pairing"),
     "C31": C("A lookup built from a frame merged on (id, step) must be keyed on both keys; no in-place write through "
              "a view of net.trafo; written values depend on tap_pos and id_characteristic_table of the same rows. Also: formula masks exclude table transformers, table angle signed by the tapped side, vk lookup mask independent of the tap position. Round 4: table lookup independent of the tap changer type; star-point flip independent of the table flag.",
@@ -160,19 +160,19 @@ CLAIMS = {
              "forwarding of kind / bounds_error / fill_value, from_points / from_gradient pairing; LogSplineCharacteristic "
              "stores log10 of x and y in the matching attributes and calls 10**interpolator(log10(x)); the cached scipy object "
              "is excluded from JSON and rebuilt from attributes assigned in __init__. The interpolation property of scipy's "
-             "objects on run-time data is not decided.",
+             "objects on run-time data is not decided. Round 5: no read-modify-write through a transforming property setter.",
              "ast call-binding / sibling-pairing analysis"),
     "C33": C("Only the structure of the saturation of the DER controller's target is claimed: every masked assignment reads the "
              "per-element vectors with its own mask; q is clamped with column 0 below and column 1 above of the area's "
              "flexibility (the columns in_area compares with); apparent-power saturation selects p^2+q^2 > s^2 with "
              "s = saturate_sn_mva/sn_mva, clips the prioritised quantity into +-s and derives the other as "
              "sqrt(s^2 - clipped^2) afterwards; saturation follows the P/Q steps and precedes the sn_mva conversion; the targets "
-             "are written to the controller's own rows. Containment in run-time polygons and the damping are not decided. Round 3: clamp entered when not all elements are inside; single exit of the apparent-power step.",
+             "are written to the controller's own rows. Containment in run-time polygons and the damping are not decided. Round 3: clamp entered when not all elements are inside; single exit of the apparent-power step. Round 5: both priority modes clip and assign both quantities; area constructor parameters all used; bus voltage by label.",
              "ast mask-agreement / ordering / bound-pairing analysis"),
     "C34": C("Information-flow argument: 'was the argument passed' must be computed from information that differs "
              "between runpp(net) and runpp(net, algorithm='nr'); checks signature defaults, the passed-parameter "
              "test and overrule list agreement; the kwargs handed to the passed-parameter test are the caller's own; every "
-             "stored-option reader goes through the priority function. Also: exact inequality in the passed test, overrule_options not extended after filtering, run_control branch hands every parameter on.",
+             "stored-option reader goes through the priority function. Also: exact inequality in the passed test, overrule_options not extended after filtering, run_control branch hands every parameter on. Round 5: no local named like an option before the locals() snapshot.",
              "information-flow argument on signature/ast"),
 }
 
